@@ -139,6 +139,8 @@ class Loop(asyncio.AbstractEventLoop):
         asyncio.events._set_running_loop(self)
         try:
             for _ in range(n):
+                if not self._ready:
+                    break  # party crashed inside this iteration (fault injection cleared the queue)
                 h = self._ready.popleft()
                 if not h.cancelled():
                     h._run()
@@ -271,6 +273,7 @@ class Sim:
         self.rngs = [random.Random(f'{seed}/{i}') for i in range(m)]
         self.n_randbelow = 0
         self.randbelow_hook = None
+        self.on_close = None  # callback(owner, peer) invoked when a party closes a connection
         self.randbelow_args = None  # set to [] to record (argument, result) of every randbelow call
         self.loops = [Loop(self, i) for i in range(m)]
         self.steps = 0
@@ -469,6 +472,8 @@ class Sim:
         i, j = tr.owner, tr.peer
         if tr.closed or i in self.crashed:
             return
+        if self.on_close is not None:
+            self.on_close(i, j)
         tr.closed = True
         self.close_events.append((self.steps, i, j))
         # our side stops reading at once: bytes still travelling j->i are discarded
